@@ -10,9 +10,11 @@ import (
 	"io"
 	"strings"
 	"sync"
+	"sync/atomic"
 
 	"filippo.io/age"
 	"filippo.io/age/armor"
+	"filippo.io/age/zverif/ax"
 	"filippo.io/age/zverif/mon"
 	"filippo.io/age/zverif/refage"
 )
@@ -99,6 +101,8 @@ const perClassCap = 6
 // defect names what was observed, the stage which generator produced the
 // input, and the class the shape of the input (stanza families, identity
 // kinds, flipped bit, passphrase variant) — stable across seeds and runs.
+var heldIn atomic.Int64
+
 func (m *monitor) violate(defect, stage, class, what string, replay map[string]any) {
 	key := defect + ":" + stage + ":" + class
 	m.mu.Lock()
@@ -190,10 +194,15 @@ func (m *monitor) check(stage, class string, f *fileCase, ids []ident, info map[
 		}
 	}
 
-	var src io.Reader = bytes.NewReader(f.bin)
+	// the kind of reader the caller holds the file in rotates from case to case
+	kind := ax.SourceKinds[int(heldIn.Add(1))%len(ax.SourceKinds)]
+	raw := f.bin
 	if f.armored() {
-		src = armor.NewReader(bytes.NewReader(f.text))
+		raw = f.text
 	}
+	src, closeSrc := ax.OpenFor(raw, f.armored(), kind)
+	defer closeSrc()
+	r.Tab("file_held_in", kind)
 	list := make([]age.Identity, len(ids))
 	allTyped := true
 	for k, i := range ids {
